@@ -851,3 +851,381 @@ Proof.
   - unfold notify_fx; sf. destruct (gcount s =? 0); apply (InvQ_local s t _ Q); sf; auto;
       try (rewrite H; reflexivity); try (intros ? ?; apply upd_other; assumption); rewrite upd_same; reflexivity.
 Qed.
+
+(* ================= all reachable states ================= *)
+Definition Inv (s : gst) : Prop := InvA s /\ InvN s /\ InvW s /\ InvQ s.
+
+Theorem inv_reach pf s : reach pf s -> Inv s.
+Proof.
+  apply invariant_lift.
+  - intros ? ->. split; [apply InvA_init|split; [apply InvN_init|split; [apply InvW_init|apply InvQ_init]]].
+  - intros s0 [t e] s1 (A & N & W & Q) Hs. unfold step in Hs. cbn in Hs. apply gstep_gs in Hs.
+    split; [eapply InvA_step; eauto|split; [eapply InvN_step; eauto|split; [eapply InvW_step; eauto|eapply InvQ_step; eauto]]].
+Qed.
+
+Lemma reach_gstep pf s t e s' : reach pf s -> gstep s t e = Some s' -> reach pf s'.
+Proof. intros R Hs. apply (reach_step _ _ s (t, e) s' R). exact Hs. Qed.
+
+Lemma grun_reach pf tr : forall s s', reach pf s -> grun s tr = Some s' -> reach pf s'.
+Proof.
+  induction tr as [|[t e] tr IH]; cbn; intros s s' R H; [injection H as <-; exact R|].
+  destruct (gstep s t e) as [s1|] eqn:E; [|discriminate]. apply (IH s1); [eapply reach_gstep; eauto|exact H].
+Qed.
+
+(* frame facts of a step *)
+Lemma gs_flags s t s' : gs s t s' ->
+  flags s' = flags s \/ flags s' = Z.lor (flags s) CANCELED \/ flags s' = Z.lor (flags s) WAITING \/
+  flags s' = Z.lor (flags s) WAITED \/ flags s' = Z.land (flags s) NOT_WAITING.
+Proof.
+  intros G. destruct G; unfx; sf;
+    repeat match goal with |- context [if ?c then _ else _] => destruct c end; sf; auto 6.
+Qed.
+Lemma gs_frame s t s' : gs s t s' ->
+  hasgrp s' = hasgrp s /\ (forall u, u <> t -> pcs s' u = pcs s u) /\
+  (cancelled s = true -> cancelled s' = true) /\
+  (Z.testbit (flags s) 0 = true -> Z.testbit (flags s') 0 = true) /\
+  (leaves s' = leaves s \/ (exists v, pcs s t = PLeave v /\ gcount s <> 0 /\ leaves s' = leaves s + 1)) /\
+  (bodies s' = bodies s \/ (exists v f, pcs s t = PBodyNext v f /\ bodies s' = bodies s + 1)).
+Proof.
+  intros G. split; [|split; [|split; [|split; [|split]]]].
+  - destruct G; unfx; sf; repeat match goal with |- context [if ?c then _ else _] => destruct c end; reflexivity.
+  - intros u Ne. destruct G; unfx; sf; repeat match goal with |- context [if ?c then _ else _] => destruct c end; sf;
+      apply upd_other; exact Ne.
+  - destruct G; unfx; sf; repeat match goal with |- context [if ?c then _ else _] => destruct c end; sf; auto.
+  - intros B. destruct (gs_flags _ _ _ G) as [-> |[-> |[-> |[-> | ->]]]]; bits; try rewrite B; reflexivity.
+  - destruct G; unfx; sf; repeat match goal with |- context [if ?c then _ else _] => destruct c end; sf; eauto.
+  - destruct G; unfx; sf; repeat match goal with |- context [if ?c then _ else _] => destruct c end; sf; eauto.
+Qed.
+
+Lemma hasgrp_const pf s : reach pf s -> hasgrp s = negb pf.
+Proof.
+  induction 1 as [s ->|s [t e] s' R IH Hs]; [reflexivity|].
+  unfold step in Hs; cbn in Hs. apply gstep_gs in Hs. destruct (gs_frame _ _ _ Hs) as [X _]. congruence.
+Qed.
+
+(* ---- C19_wait_zero_after_first_completion ---- *)
+Lemma completion_facts pf s : reach pf s -> hasgrp s = true -> gcount s = 0 ->
+  leaves s = 1 /\ 1 <= ninv s /\ 1 <= fin s.
+Proof.
+  intros R Hh G0. destruct (inv_reach pf s R) as ((_ & _ & _ & _ & _ & A6 & _ & A8 & _) & _).
+  rewrite Hh in A8. destruct A8 as (G1 & G2 & G3). assert (leaves s = 1) by lia. auto.
+Qed.
+
+Lemma wait_zero_after_first_completion pf s t e s' tmo :
+  reach pf s -> pcs s t = PWaitG tmo -> gstep s t e = Some s' -> pcs s' t = PWaitOut 0 ->
+  leaves s = 1 /\ 1 <= ninv s /\ 1 <= fin s.
+Proof.
+  intros R Hpc Hs Hpc'. apply gstep_gs in Hs.
+  destruct Hs; try (rewrite Hpc in H; discriminate H); sf; try (rewrite upd_same in Hpc'; try discriminate Hpc').
+  - destruct H as [[X _]|X]; rewrite Hpc in X; discriminate X.
+  - rewrite Hpc in Hpc'. discriminate Hpc'.
+  - apply (completion_facts pf s R); assumption.
+Qed.
+
+Lemma wait_zero_state pf s t : reach pf s -> (pcs s t = PWaitOut 0 \/ Z.testbit (flags s) 2 = true) ->
+  leaves s = 1 /\ 1 <= ninv s /\ 1 <= fin s.
+Proof.
+  intros R H. destruct (inv_reach pf s R) as (_ & _ & (_ & W2 & _ & WT) & _).
+  destruct H as [H|H].
+  - destruct (WT t) as (_ & T2 & _). destruct (T2 H). apply (completion_facts pf s R); assumption.
+  - destruct (W2 H) as (? & ? & _). apply (completion_facts pf s R); assumption.
+Qed.
+
+(* the private group is left at most once, by a thread that incremented dbpd_performed after its body / skip *)
+Lemma only_leave pf s t e s' : reach pf s -> gstep s t e = Some s' -> leaves s' <> leaves s ->
+  exists v, pcs s t = PLeave v /\ leaves s = 0 /\ leaves s' = 1 /\ gcount s' = 0 /\ 1 <= ninv s /\ 1 <= fin s.
+Proof.
+  intros R Hs Hl. pose proof (reach_gstep pf s t e s' R Hs) as R'. apply gstep_gs in Hs.
+  destruct (gs_frame _ _ _ Hs) as (Hh & _ & _ & _ & [X|(v & Hpc & G & L)] & _); [contradiction|].
+  exists v. split; [exact Hpc|].
+  destruct (inv_reach pf s R) as ((_ & _ & _ & _ & _ & A6 & _ & A8 & AT) & _).
+  destruct (inv_reach pf s' R') as ((_ & _ & _ & _ & _ & _ & _ & A8' & _) & _).
+  specialize (AT t). unfold tinvA in AT. rewrite Hpc in AT. destruct AT as [N1 Hg]. rewrite Hg in A8.
+  rewrite Hh, Hg in A8'. destruct A8 as (G1 & G2 & G3). destruct A8' as (G1' & G2' & G3').
+  repeat split; auto; lia.
+Qed.
+Lemma leave_iff_inc_result_1 self v e p : tstep self (PInc v) e = Some p ->
+  (p = PLeave v /\ wrapsz 4 (ea e + 1) = 1) \/ (p = PPost v false /\ wrapsz 4 (ea e + 1) <> 1).
+Proof.
+  unfold tstep, tstep_grp. destruct (is_grp e); [discriminate|].
+  destruct (ev_is e DV_ADD MO_RELAXED OFF_PERF && (eb e =? 1) && (esz e =? 4)); [|discriminate].
+  intros H. injection H as <-. destruct (Z.eqb_spec (wrapsz 4 (ea e + 1)) 1); auto.
+Qed.
+
+(* ---- C19_wait_nonzero_only_by_timeout ---- *)
+Lemma waitout_only_from_group_wait self p e r : tstep self p e = Some (PWaitOut r) ->
+  exists tmo, p = PWaitG tmo /\ ek e = DVG_WAITRET /\ ea e = r /\ (r = 0 \/ (r = 1 /\ tmo <> FOREVER)).
+Proof.
+  unfold tstep, tstep_grp. intros H. destruct (is_grp e).
+  - destruct p; try discriminate;
+      repeat match type of H with
+      | (if ?c then _ else _) = Some _ => destruct c eqn:?; try discriminate
+      | (match ?x with _ => _ end) = Some _ => destruct x eqn:?; try discriminate
+      | Some (if ?c then _ else _) = Some _ => destruct c eqn:?; try discriminate
+      end; try discriminate.
+    injection H as <-. exists tmo. split; [reflexivity|]. split; [apply Z.eqb_eq; assumption|]. split; [reflexivity|].
+    match goal with X : (_ || _) = true |- _ => rename X into HX end. apply orb_true_iff in HX as [HX|HX].
+    + left. apply Z.eqb_eq. assumption.
+    + right. apply andb_true_iff in HX as [X1 X2]. split; [apply Z.eqb_eq; exact X1|].
+      apply negb_true_iff in X2. apply Z.eqb_neq. exact X2.
+  - destruct p; try discriminate;
+      repeat match type of H with
+      | (if ?c then _ else _) = Some _ => destruct c eqn:?; try discriminate
+      | (match ?x with _ => _ end) = Some _ => destruct x eqn:?; try discriminate
+      | Some (if ?c then _ else _) = Some _ => destruct c eqn:?; try discriminate
+      | Some (match ?x with _ => _ end) = Some _ => destruct x eqn:?; try discriminate
+      end; try discriminate.
+    all: exfalso; unfold call_entry, inv_entry, after_body, post_end in *;
+      repeat match goal with
+      | X : (if ?c then _ else _) = Some _ |- _ => destruct c; try discriminate X
+      | X : Some (if ?c then _ else _) = Some _ |- _ => destruct c; try discriminate X
+      | X : Some (match ?v with _ => _ end) = Some _ |- _ => destruct v; try discriminate X
+      end; try discriminate.
+Qed.
+Lemma wait_way_out self r e p : tstep self (PWaitOut r) e = Some p ->
+  p = PRet (if r =? 0 then 0 else 1) /\ ek e = (if r =? 0 then DV_OR else DV_AND) /\ eord e = MO_RELAXED /\
+  eoff e = OFF_FLAGS /\ eb e = (if r =? 0 then WAITED else NOT_WAITING).
+Proof.
+  unfold tstep, tstep_grp. destruct (is_grp e); [discriminate|]. unfold ev_is.
+  destruct (r =? 0);
+    match goal with |- (if ?c then _ else _) = _ -> _ => destruct c eqn:C; [|discriminate] end;
+    intros H; injection H as <-;
+    repeat (apply andb_true_iff in C as [C ?]); repeat match goal with X : (_ =? _) = true |- _ => apply Z.eqb_eq in X end; auto.
+Qed.
+Lemma wait_way_out_effect s t e s' r : pcs s t = PWaitOut r -> gstep s t e = Some s' ->
+  flags s' = (if r =? 0 then Z.lor (flags s) WAITED else Z.land (flags s) NOT_WAITING) /\ waiter s' = None /\
+  Z.testbit (flags s') 0 = Z.testbit (flags s) 0 /\ Z.testbit (flags s') 3 = Z.testbit (flags s) 3 /\
+  Z.testbit (flags s') 1 = (if r =? 0 then Z.testbit (flags s) 1 else false).
+Proof.
+  intros Hpc Hs. apply gstep_gs in Hs.
+  destruct Hs; try (rewrite Hpc in H; discriminate H).
+  - destruct H as [[X _]|X]; rewrite Hpc in X; discriminate X.
+  - destruct H as [[v X]|[[tmo X]|X]]; rewrite Hpc in X; discriminate X.
+  - rewrite Hpc in H. injection H as <-. sf. destruct (r =? 0); bits; auto.
+Qed.
+
+(* ---- C19_notify_once_not_early ---- *)
+Lemma notify_once_not_early pf s i : reach pf s ->
+  0 <= fcnt s i <= 1 /\
+  (fcnt s i = 1 -> 0 <= i < nreg s /\ leaves s = 1 /\ 1 <= ninv s /\ 1 <= fin s) /\
+  (0 <= i < nreg s -> leaves s = 1 -> fcnt s i = 1) /\
+  (0 <= i < nreg s -> leaves s = 0 -> fcnt s i = 0 /\ In i (pending s)).
+Proof.
+  intros R. pose proof (inv_reach pf s R) as ((_ & _ & _ & _ & _ & _ & _ & A8 & _) & (N0 & N1 & N2 & N3 & N4 & N5 & N6) & _).
+  assert (Hh : forall j, 0 <= j < nreg s -> hasgrp s = true).
+  { intros j Hj. destruct (hasgrp s) eqn:E; [reflexivity|]. specialize (N6 eq_refl). lia. }
+  split; [apply N1|]. split; [|split].
+  - intros F1. destruct (N2 i F1) as [Ri G0]. split; [exact Ri|]. apply (completion_facts pf s R); [eapply Hh; eauto|exact G0].
+  - intros Ri L1. rewrite (Hh i Ri) in A8. destruct A8 as (G1 & _). assert (G0 : gcount s = 0) by lia.
+    destruct (N4 i Ri) as [X|X]; [|exact X]. rewrite (N5 G0) in X. destruct X.
+  - intros Ri L0. rewrite (Hh i Ri) in A8. destruct A8 as (G1 & _).
+    assert (F0 : fcnt s i = 0).
+    { pose proof (N1 i). destruct (Z.eq_dec (fcnt s i) 1) as [E|E]; [|lia]. destruct (N2 i E). lia. }
+    split; [exact F0|]. destruct (N4 i Ri) as [X|X]; [exact X|lia].
+Qed.
+
+(* ---- C19_cancel_before_start_skips_body_but_completes ---- *)
+Lemma entry_after_cancel s t v : InvA s -> cancelled s = true ->
+  let s' := entry_fx (set_pc s t (inv_entry v (flags s))) (flags s) in
+  bodies s' = bodies s /\
+  (pcs s' t = PCrash \/ (fin s' = fin s + 1 /\ pcs s' t = (if hasgrp s then PInc v else PPost v false))).
+Proof.
+  intros (A1 & A2 & _) C. specialize (A1 C). unfold entry_fx, inv_entry.
+  destruct (hasb (flags s) WAITED); sf; [split; [reflexivity|left; apply upd_same]|].
+  rewrite hasb_C, A1. sf. split; [reflexivity|]. right. split; [reflexivity|]. rewrite upd_same.
+  unfold after_body. rewrite hasb_P, A2. destruct (hasgrp s); reflexivity.
+Qed.
+Lemma cancel_before_read_skips pf s t e s' v : reach pf s -> cancelled s = true ->
+  (pcs s t = PInvRead v \/ (pcs s t = PIdle /\ v = VAsync /\ ev_kind e DVU_CALL = false)) ->
+  gstep s t e = Some s' ->
+  bodies s' = bodies s /\
+  (pcs s' t = PCrash \/ (fin s' = fin s + 1 /\ pcs s' t = (if hasgrp s then PInc v else PPost v false))).
+Proof.
+  intros R C Hpc Hs. destruct (inv_reach pf s R) as (A & _).
+  assert (X : s' = entry_fx (set_pc s t (inv_entry v (flags s))) (flags s)).
+  { unfold gstep, tstep in Hs. destruct Hpc as [Hpc|(Hpc & -> & K)]; rewrite Hpc in Hs.
+    - destruct (is_grp e); [discriminate|].
+      destruct (ev_is e DV_LOAD MO_PLAIN OFF_FLAGS); [|discriminate]. cbv zeta in Hs.
+      destruct (Z.eqb_spec (ea e) (flags s)) as [E|]; [|discriminate]. injection Hs as <-. rewrite E. reflexivity.
+    - destruct (is_grp e); [discriminate|]. rewrite K in Hs.
+      destruct (ev_is e DV_LOAD MO_PLAIN OFF_FLAGS); [|discriminate]. cbv zeta in Hs.
+      destruct (Z.eqb_spec (ea e) (flags s)) as [E|]; [|discriminate]. injection Hs as <-. rewrite E. reflexivity. }
+  rewrite X. apply entry_after_cancel; assumption.
+Qed.
+Lemma inc_step pf s t e s' v : reach pf s -> pcs s t = PInc v -> gstep s t e = Some s' ->
+  ninv s' = ninv s + 1 /\ performed s' = wrapsz 4 (performed s + 1) /\
+  ((performed s' = 1 /\ pcs s' t = PLeave v) \/ (performed s' <> 1 /\ pcs s' t = PPost v false)) /\
+  (ninv s = 0 -> pcs s' t = PLeave v).
+Proof.
+  intros R Hpc Hs. destruct (inv_reach pf s R) as ((_ & _ & _ & _ & _ & _ & A7 & _) & _). apply gstep_gs in Hs.
+  destruct Hs; try (rewrite Hpc in H; discriminate H).
+  - destruct H as [[X _]|X]; rewrite Hpc in X; discriminate X.
+  - rewrite Hpc in H. injection H as <-. sf. rewrite upd_same. split; [reflexivity|]. split; [reflexivity|]. split.
+    + destruct (Z.eqb_spec (wrapsz 4 (performed s + 1)) 1); auto.
+    + intros N0. rewrite A7, N0. reflexivity.
+  - destruct H as [[v0 X]|[[tmo X]|X]]; rewrite Hpc in X; discriminate X.
+Qed.
+Lemma leave_step pf s t e s' v : reach pf s -> pcs s t = PLeave v -> gstep s t e = Some s' ->
+  (leaves s = 0 /\ gcount s' = 0 /\ leaves s' = 1 /\ pending s' = [] /\ pcs s' t = PPost v true /\
+   (forall i, 0 <= i < nreg s' -> fcnt s' i = 1)) \/
+  (leaves s = 1 /\ pcs s' t = PCrash).
+Proof.
+  intros R Hpc Hs. pose proof (reach_gstep pf s t e s' R Hs) as R'.
+  destruct (inv_reach pf s R) as ((_ & _ & _ & _ & _ & _ & _ & A8 & _) & _). apply gstep_gs in Hs.
+  destruct Hs; try (rewrite Hpc in H; discriminate H).
+  - destruct H as [[X _]|X]; rewrite Hpc in X; discriminate X.
+  - (* the leave *)
+    left. rewrite H0 in A8. destruct A8 as (G1 & G2 & G3).
+    assert (L0 : leaves s = 0) by lia. assert (G : gcount s = 1) by lia.
+    assert (E : leave_fx (set_pc s t (PPost v0 true)) =
+                set_grp (set_pc s t (PPost v0 true)) 0 [] (leaves s + 1) (nreg s) (fire (pending s) (fcnt s))).
+    { unfold leave_fx; sf. rewrite G. reflexivity. }
+    rewrite E in *. sf. rewrite upd_same. rewrite Hpc in H. injection H as <-.
+    repeat split; auto; try lia.
+    intros i Ri. destruct (notify_once_not_early pf _ i R') as (_ & _ & X & _). sf. apply X; [exact Ri|lia].
+  - right. rewrite H0 in A8. destruct A8 as (G1 & G2 & G3). sf. rewrite upd_same. split; [lia|reflexivity].
+  - destruct H as [[v0 X]|[[tmo X]|X]]; rewrite Hpc in X; discriminate X.
+Qed.
+Lemma body_runner_read_clear pf s t : reach pf s ->
+  match pcs s t with PSetThread f | PBodyNext _ f | PInBody _ f => Z.testbit f 0 = false | _ => True end.
+Proof.
+  intros R. destruct (inv_reach pf s R) as ((_ & _ & _ & _ & _ & _ & _ & _ & AT) & _). specialize (AT t).
+  unfold tinvA in AT. destruct (pcs s t); auto; apply AT.
+Qed.
+
+(* ---- C19_cancel_while_running_not_interrupted ---- *)
+Lemma running_not_interrupted s t e s' v f : pcs s t = PInBody v f -> gstep s t e = Some s' ->
+  ev_kind e DVU_CALLOUT_END = true /\ pcs s' t = after_body v f /\ fin s' = fin s + 1 /\ flags s' = flags s /\
+  bodies s' = bodies s /\ cancelled s' = cancelled s.
+Proof.
+  intros Hpc Hs. unfold gstep, tstep in Hs. rewrite Hpc in Hs. destruct (is_grp e); [discriminate|].
+  destruct (ev_kind e DVU_CALLOUT_END); [|discriminate]. cbv zeta in Hs. injection Hs as <-. sf. rewrite upd_same.
+  repeat split; reflexivity.
+Qed.
+Lemma others_do_not_move_me s t u e s' : gstep s u e = Some s' -> u <> t -> pcs s' t = pcs s t.
+Proof. intros Hs Ne. apply gstep_gs in Hs. destruct (gs_frame _ _ _ Hs) as (_ & X & _). apply X. auto. Qed.
+
+(* ---- C19_testcancel_monotone ---- *)
+Lemma cancel_sets s t e s' : pcs s t = PCancel -> gstep s t e = Some s' ->
+  cancelled s' = true /\ Z.testbit (flags s') 0 = true /\ pcs s' t = PRet 0.
+Proof.
+  intros Hpc Hs. unfold gstep, tstep in Hs. rewrite Hpc in Hs. destruct (is_grp e); [discriminate|].
+  destruct (ev_is e DV_OR MO_RELAXED OFF_FLAGS && (eb e =? CANCELED) && (esz e =? 4)); [|discriminate]. cbv zeta in Hs.
+  destruct (ea e =? flags s); [|discriminate]. injection Hs as <-. sf. rewrite upd_same. bits. repeat split; reflexivity.
+Qed.
+Lemma canceled_bit_never_cleared s t e s' : gstep s t e = Some s' ->
+  (cancelled s = true -> cancelled s' = true) /\ (Z.testbit (flags s) 0 = true -> Z.testbit (flags s') 0 = true).
+Proof. intros Hs. apply gstep_gs in Hs. destruct (gs_frame _ _ _ Hs) as (_ & _ & X & Y & _). auto. Qed.
+Lemma cancelled_visible pf s : reach pf s -> cancelled s = true -> Z.testbit (flags s) 0 = true.
+Proof. intros R. destruct (inv_reach pf s R) as ((A1 & _) & _). exact A1. Qed.
+Lemma testcancel_after_cancel pf s t e s' : reach pf s -> cancelled s = true -> pcs s t = PTestRead ->
+  gstep s t e = Some s' -> pcs s' t = PRet 1.
+Proof.
+  intros R C Hpc Hs. pose proof (cancelled_visible pf s R C) as B.
+  unfold gstep, tstep in Hs. rewrite Hpc in Hs. destruct (is_grp e); [discriminate|].
+  destruct (ev_is e DV_LOAD MO_PLAIN OFF_FLAGS); [|discriminate]. cbv zeta in Hs.
+  destruct (Z.eqb_spec (ea e) (flags s)) as [E|]; [|discriminate]. injection Hs as <-. sf. rewrite upd_same.
+  rewrite E, hasb_C, B. reflexivity.
+Qed.
+
+(* ---- C19_perform_never_leaves_group ---- *)
+Lemma perform_never_leaves s : reach true s ->
+  leaves s = 0 /\ ninv s = 0 /\ performed s = 0 /\ gcount s = 0 /\ Z.testbit (flags s) 3 = true /\
+  forall t v, pcs s t <> PLeave v /\ pcs s t <> PInc v.
+Proof.
+  intros R. pose proof (hasgrp_const true s R) as Hh. cbn in Hh.
+  destruct (inv_reach true s R) as ((_ & A2 & _ & _ & _ & _ & A7 & A8 & AT) & _). rewrite Hh in A8, A2.
+  destruct A8 as (G0 & L0 & N0). rewrite N0 in A7. repeat split; auto.
+  - intros X. specialize (AT t). unfold tinvA in AT. rewrite X in AT. destruct AT as [_ Y]. congruence.
+  - intros X. specialize (AT t). unfold tinvA in AT. rewrite X in AT. destruct AT as [_ Y]. congruence.
+Qed.
+
+(* ---- DBF_WAITING tracks the single waiter; a timed-out wait leaves no trace ---- *)
+Lemma single_waiter pf s t u : reach pf s -> in_wait (pcs s t) = true -> in_wait (pcs s u) = true -> t = u.
+Proof.
+  intros R Ht Hu. destruct (inv_reach pf s R) as (_ & _ & (_ & _ & _ & WT) & _).
+  destruct (WT t) as (T1 & _). destruct (WT u) as (U1 & _). specialize (T1 Ht). specialize (U1 Hu). congruence.
+Qed.
+Lemma waiting_bit pf s : reach pf s ->
+  (Z.testbit (flags s) 1 = true <-> (waiter s <> None \/ Z.testbit (flags s) 2 = true)) /\
+  (Z.testbit (flags s) 2 = true -> waiter s = None).
+Proof.
+  intros R. destruct (inv_reach pf s R) as (_ & _ & (W1 & W2 & _) & _). split; [exact W1|].
+  intros X. destruct (W2 X) as (_ & _ & Y). exact Y.
+Qed.
+
+(* ---- the references on the target queue ---- *)
+Lemma queue_refs pf s : reach pf s ->
+  qref s = 2 * ((if queue s =? 0 then 0 else 1) + Z.of_nat (length (hands s))) /\ 0 <= qref s /\
+  (queue s <> 0 -> 2 <= qref s) /\ (forall t, holds (pcs s t) = true -> 2 <= qref s).
+Proof.
+  intros R. destruct (inv_reach pf s R) as (_ & _ & _ & (Q1 & Q2 & Q3)). split; [exact Q1|].
+  split; [destruct (queue s =? 0); lia|]. split.
+  - intros X. destruct (Z.eqb_spec (queue s) 0); [contradiction|lia].
+  - intros t Ht. apply Q3 in Ht. destruct (hands s) as [|x l]; [destruct Ht|]. cbn [length] in Q1.
+    destruct (queue s =? 0); lia.
+Qed.
+
+(* ================= soundness of the conformance automaton (subset construction over latent steps) ================= *)
+Inductive lat_path (self : Z) : pc -> list event -> pc -> Prop :=
+| lp_nil p : lat_path self p [] p
+| lp_cons p e p' l p'' : is_latent e = true -> tstep self p e = Some p' -> lat_path self p' l p'' ->
+    lat_path self p (e :: l) p''.
+(* a run of tstep over the visible trace tr with latent steps interleaved *)
+Inductive vpath (self : Z) : pc -> list event -> pc -> Prop :=
+| vp_nil p : vpath self p [] p
+| vp_cons p l p1 e p2 tr p3 : lat_path self p l p1 -> tstep self p1 e = Some p2 -> vpath self p2 tr p3 ->
+    vpath self p (e :: tr) p3.
+
+Lemma lat_path_app self p l p' l' p'' : lat_path self p l p' -> lat_path self p' l' p'' -> lat_path self p (l ++ l') p''.
+Proof. induction 1; cbn; [auto|]. intros X. econstructor; eauto. Qed.
+
+Lemma latents_latent self p e : In e (latents self p) -> is_latent e = true.
+Proof.
+  destruct p; cbn; intros H; repeat (destruct H as [<-|H]; [reflexivity|]); destruct H.
+Qed.
+Lemma succs_In self p es p' : In p' (succs self p es) <-> exists e, In e es /\ tstep self p e = Some p'.
+Proof.
+  unfold succs. rewrite in_flat_map. split.
+  - intros (e & He & X). exists e. split; [exact He|]. destruct (tstep self p e); [destruct X as [<-|[]]; reflexivity|destruct X].
+  - intros (e & He & X). exists e. split; [exact He|]. rewrite X. left. reflexivity.
+Qed.
+Lemma closure_sound self n : forall ps p, In p (closure self n ps) -> exists p0 l, In p0 ps /\ lat_path self p0 l p.
+Proof.
+  induction n as [|n IH]; cbn; intros ps p H.
+  - exists p, []. split; [exact H|constructor].
+  - apply in_app_or in H as [H|H]; [exists p, []; split; [exact H|constructor]|].
+    destruct (IH _ _ H) as (p1 & l & H1 & L). apply in_flat_map in H1 as (p0 & H0 & H1).
+    apply succs_In in H1 as (e & He & Ht). exists p0, (e :: l). split; [exact H0|].
+    econstructor; eauto. eapply latents_latent; eauto.
+Qed.
+Lemma vstep_sound self ps e p' : In p' (vstep self ps e) ->
+  exists p0 l p1, In p0 ps /\ lat_path self p0 l p1 /\ tstep self p1 e = Some p'.
+Proof.
+  unfold vstep. intros H. apply in_flat_map in H as (p1 & H1 & H2).
+  apply succs_In in H2 as (e' & [<-|[]] & Ht). destruct (closure_sound _ _ _ _ H1) as (p0 & l & H0 & L).
+  exists p0, l, p1. auto.
+Qed.
+Lemma vrun_sound self tr : forall ps i ps', 0 <= i -> vrun self ps tr i = (ps', -1) ->
+  forall p', In p' ps' -> exists p0, In p0 ps /\ vpath self p0 tr p'.
+Proof.
+  induction tr as [|e tr IH]; cbn [vrun]; intros ps i ps' Hi H p' Hp'.
+  - injection H as <-. exists p'. split; [exact Hp'|constructor].
+  - destruct (vstep self ps e) as [|q qs] eqn:E; [inversion H; lia|].
+    assert (Hi' : 0 <= i + 1) by lia.
+    destruct (IH (q :: qs) (i + 1) ps' Hi' H p' Hp') as (p2 & H2 & V).
+    rewrite <- E in H2. destruct (vstep_sound _ _ _ _ H2) as (p0 & l & p1 & H0 & L & Ht).
+    exists p0. split; [exact H0|]. econstructor; eauto.
+Qed.
+(* an accepted trace is a run of the thread automaton from PIdle back to PIdle, for some values of the latent events *)
+Lemma conform_sound self tr : conform self tr = (-1, 1) ->
+  exists p l, vpath self PIdle tr p /\ lat_path self p l PIdle.
+Proof.
+  unfold conform. destruct (vrun self [PIdle] tr 0) as [ps i] eqn:E. intros H.
+  pose proof (f_equal fst H) as H1. pose proof (f_equal snd H) as H2. cbn [fst snd] in H1, H2. subst i.
+  destruct (existsb pc_idle (closure self LAT_DEPTH ps)) eqn:X; [|discriminate H2].
+  apply existsb_exists in X as (q & Hq & Iq). destruct q; try discriminate.
+  destruct (closure_sound _ _ _ _ Hq) as (p & l & Hp & L).
+  destruct (vrun_sound self tr [PIdle] 0 ps (Z.le_refl 0) E p Hp) as (p0 & [<-|[]] & V).
+  exists p, l. auto.
+Qed.
